@@ -264,10 +264,17 @@ def set_locals_of(fi, set_attrs, set_funcs, params):
     return sl
 
 
-def body_insensitive(model, cg, fi, body, loopvars, depth=0):
+def body_insensitive(model, cg, fi, body, loopvars, depth=0, E=None):
     """Is a loop body an order-insensitive consumer?  Returns (bool, reason)."""
     for s in body:
         for n in [s] + [x for x in ast.walk(s) if x is not s]:
+            if E is not None and isinstance(n, ast.Call):
+                for (t, rc) in cg.resolve_call(fi, None, n):
+                    if t.node is fi.node:
+                        continue
+                    cs = E.summary(t, rc)
+                    if cs.seq_add:
+                        return False, 'calls %s, which appends to the ordered container(s) %s: their element order follows the hash order' % (t.name, sorted(cs.seq_add)[:3])
             if isinstance(n, (ast.Yield, ast.YieldFrom)):
                 return False, 'yields inside the loop'
             if isinstance(n, ast.Break):
@@ -306,7 +313,7 @@ def consumer_ok(model, cg, E, fi, kind, node, isset):
             if isinstance(x, ast.Name) and isinstance(x.ctx, ast.Load) and getattr(x, 'lineno', 0) > end:
                 after_use.add(x.id)
         temps = locals_in_body - after_use
-        return body_insensitive(model, cg, fi, node.body, lv | temps)
+        return body_insensitive(model, cg, fi, node.body, lv | temps, E=E)
     if kind == 'comp':
         par = model.parent(node)
         if isinstance(par, ast.Call) and src(par.func) in ('all', 'any', 'set', 'frozenset', 'sum', 'len', 'sorted', 'min', 'max'):
